@@ -46,6 +46,10 @@ def main():
         out[cid] = res
         print(cid, res, flush=True)
     sh("git -C /repo worktree prune")
-    json.dump(out, open("/tmp/seed_confirm.json", "w"), indent=1)
+    prev = {}
+    if os.path.exists("/tmp/seed_confirm.json"):
+        prev = json.load(open("/tmp/seed_confirm.json"))
+    prev.update(out)
+    json.dump(prev, open("/tmp/seed_confirm.json", "w"), indent=1)
 
 main()
